@@ -49,6 +49,177 @@ def _emptiness_guard(term, pname):
     return False
 
 
+def check_cache_discipline(prog, ctx, base, call, pname, rule="C12.D4"):
+    """D4: every entry of the evaluation dictionary is stored under the very point it was evaluated at (single-point path: the tuple of
+    the coordinates; batch path: zip(points, values)), the dictionary is emptied only by reset_dictionary, its size is the counter, and
+    nobody outside Function writes it.  Shared with C13.D6: the driver's point count is this dictionary's size, so one evaluated point
+    must be exactly one key on every path."""
+    tm = Terms(call.node)
+    env = tm.env
+    key_ok_term = ("copy", "tuple", ("n", pname))
+    n_store = 0
+    def judge_zip(a, b):
+        """zip(<the points of this call>, <the values evaluated for them>)"""
+        okk = isinstance(a, ast.Name) and a.id == pname
+        okv = False
+        if isinstance(b, ast.Name):
+            okv = True
+            for bd in env.bindings.get(b.id, []):
+                v = bd.value
+                if bd.kind != "assign" or v is None:
+                    okv = False
+                    continue
+                has_eval = any(isinstance(x, ast.Call) and isinstance(x.func, ast.Attribute)
+                               and x.func.attr == "eval_vectorized"
+                               and any(isinstance(y, ast.Name) and y.id == pname for a2 in x.args for y in ast.walk(a2))
+                               for x in ast.walk(v))
+                selfref = any(isinstance(y, ast.Name) and y.id == b.id for y in ast.walk(v))
+                if not (has_eval or selfref):
+                    okv = False
+        return okk and okv
+    for s in R.self_stores(call, "f_dict"):
+        if s.kind == "elem":
+            sub = s.stmt.targets[0]
+            # the batch update written as a loop:  for point, value in zip(points, values): self.f_dict[point] = value
+            loops_ = [l for l in R.enclosing_loops(s.stmt) if isinstance(l, ast.For)]
+            if loops_ and isinstance(loops_[-1].iter, ast.Call) and isinstance(loops_[-1].iter.func, ast.Name) and loops_[-1].iter.func.id == "zip" \
+                    and len(loops_[-1].iter.args) == 2 and isinstance(loops_[-1].target, ast.Tuple) and len(loops_[-1].target.elts) == 2 \
+                    and all(isinstance(e, ast.Name) for e in loops_[-1].target.elts):
+                kv, vv = loops_[-1].target.elts
+                n_store += 1
+                ok = isinstance(sub.slice, ast.Name) and sub.slice.id == kv.id and isinstance(s.value, ast.Name) and s.value.id == vv.id \
+                    and judge_zip(*loops_[-1].iter.args)
+                ctx.check(ok, rule, R.key_of(call, "batch-update"), call.loc(s.stmt),
+                          "the batch update stores, for each point of this call, the value evaluated for it",
+                          "batch cache update `%s` (in `for %s in %s`) does not pair the points of this call with the values evaluated for them"
+                          % (src(s.stmt), src(loops_[-1].target), src(loops_[-1].iter)))
+                continue
+            n_store += 1
+            k = tm.term(sub.slice)
+            good_key = k == key_ok_term
+            # value: every non-None definition of the stored name is a lookup/evaluation for the same key
+            vname = s.value.id if isinstance(s.value, ast.Name) else None
+            good_val = vname is not None
+            defs = []
+            if vname:
+                # the stored name and the names it is copied from (x = y): all their definitions count
+                todo, seen_n, all_bs = [vname], set(), []
+                while todo:
+                    nm_ = todo.pop()
+                    if nm_ in seen_n or len(seen_n) > 4:
+                        continue
+                    seen_n.add(nm_)
+                    for b in env.bindings.get(nm_, []):
+                        if b.kind == "assign" and isinstance(b.value, ast.Name) and b.value.id not in (pname,) and b.value.id in env.bindings:
+                            todo.append(b.value.id)
+                        else:
+                            all_bs.append(b)
+                for b in all_bs:
+                    if b.kind != "assign":
+                        good_val = False
+                        continue
+                    v = b.value
+                    if isinstance(v, ast.Constant) and v.value is None:
+                        continue
+                    # `x = [x]` scalar wrap happens after the store: allowed if it does not dominate the store
+                    if isinstance(v, ast.List) and len(v.elts) == 1 and isinstance(v.elts[0], ast.Name) and v.elts[0].id == vname:
+                        wrapn = R.cfg_node(call, b.stmt)
+                        if wrapn.idx in cfg_of(call).reachable_after(wrapn) or \
+                                R.cfg_node(call, s.stmt).idx in cfg_of(call).reachable_after(wrapn):
+                            good_val = False
+                        continue
+                    if isinstance(v, ast.Call) and v.args:
+                        a0 = tm.term(v.args[0])
+                        fn = v.func
+                        fname = fn.attr if isinstance(fn, ast.Attribute) else None
+                        if fname in ("get", "eval") and a0 in (k, ("n", pname)):
+                            defs.append(src(v))
+                            continue
+                    good_val = False
+                    defs.append("!" + src(v))
+            ctx.check(good_key and good_val, rule, R.key_of(call, "store:f_dict[%s]" % show(k)), call.loc(s.stmt),
+                      "cache store keyed by the call's own point, value looked up / evaluated for that point",
+                      "cache store `%s`: key %s is not tuple(%s) of this call or the stored value is not the one "
+                      "looked up / evaluated for that key (defs: %s)" % (src(s.stmt), show(k), pname, defs),
+                      cache_key=show(k), value_defs=defs)
+        elif s.kind == "mutator" and s.call.func.attr == "update":
+            n_store += 1
+            arg = s.call.args[0] if s.call.args else None
+            ok = False
+            detail = ""
+            if isinstance(arg, ast.Call) and isinstance(arg.func, ast.Name) and arg.func.id == "zip" and len(arg.args) == 2:
+                a, b = arg.args
+                okk = isinstance(a, ast.Name) and a.id == pname
+                okv = False
+                if isinstance(b, ast.Name):
+                    okv = True
+                    for bd in env.bindings.get(b.id, []):
+                        v = bd.value
+                        if bd.kind != "assign" or v is None:
+                            okv = False
+                            continue
+                        has_eval = any(isinstance(x, ast.Call) and isinstance(x.func, ast.Attribute)
+                                       and x.func.attr == "eval_vectorized"
+                                       and any(isinstance(y, ast.Name) and y.id == pname for a2 in x.args for y in ast.walk(a2))
+                                       for x in ast.walk(v))
+                        selfref = any(isinstance(y, ast.Name) and y.id == b.id for y in ast.walk(v))
+                        if not (has_eval or selfref):
+                            okv = False
+                ok = okk and okv
+                detail = "zip(%s, %s)" % (src(a), src(b))
+            ctx.check(ok, rule, R.key_of(call, "batch-update"), call.loc(s.stmt),
+                      "batch cache update zips the evaluated points with their own rows (%s)" % detail,
+                      "batch cache update `%s` does not zip the points of this call with the values evaluated for them" % src(s.stmt))
+        else:
+            n_store += 1
+            ctx.violation(rule, R.key_of(call, "store:%s" % s.kind), call.loc(s.stmt),
+                          "unrecognised write to the evaluation cache in __call__: %s" % src(s.stmt))
+    ctx.floor(rule, n_store, 3, "cache stores in Function.__call__")
+    # reset / counter
+    reset = prog.func(BASE + ".reset_dictionary")
+    size = prog.func(BASE + ".get_f_dict_size")
+    ctx.touch(reset, size)
+    rs = [s for s in R.self_stores(reset, "f_dict") if s.kind == "plain"]
+    ok = bool(rs) and all(isinstance(s.value, ast.Dict) and not s.value.keys or
+                          (isinstance(s.value, ast.Call) and isinstance(s.value.func, ast.Name) and s.value.func.id == "dict"
+                           and not s.value.args and not s.value.keywords) for s in rs)
+    withv, bare, fall = R.return_paths(reset)
+    c_reset = cfg_of(reset)
+    on_all = bool(rs) and all(c_reset.post_dominates(R.cfg_node(reset, rs[-1].stmt), c_reset.entry) for _ in [0])
+    ctx.check(ok and on_all, rule, R.key_of(reset, "reset:f_dict"), reset.loc(),
+              "reset_dictionary re-assigns f_dict to an empty dict on every path",
+              "reset_dictionary does not plainly re-assign f_dict to an empty dict on every path")
+    rt = [p for p in R.return_paths(size)[0]]
+    tsz = terms_of(size)
+    ok = len(rt) >= 1 and all(tsz.term(p.ast.value) == ("call", ("n", "len"), (("a", ("n", "self"), "f_dict"),), ()) for p in rt)
+    ctx.check(ok, rule, R.key_of(size, "counter"), size.loc(),
+              "the evaluation counter is the size of the dictionary that reset_dictionary empties",
+              "get_f_dict_size no longer returns len(self.f_dict)")
+    # who else writes the cache state of a Function object
+    writers = set()
+    fsubs = {c.qual for c in prog.all_subclasses(base)}
+    allowed = {BASE + ".__init__", BASE + ".reset_dictionary", BASE + ".__call__", BASE + ".deactivate_caching"}
+    for fi in prog.functions.values():
+        for s in R.attribute_stores(fi.node):
+            if s.attr not in ("f_dict", "old_f_dict", "do_cache"):
+                continue
+            is_self = isinstance(s.base, ast.Name) and s.base.id == fi.self_name
+            if is_self and (fi.cls is None or fi.cls.qual not in fsubs):
+                continue        # an unrelated class with an attribute of the same name
+            if is_self and fi.qual in allowed:
+                continue
+            if is_self and s.attr == "do_cache" and fi.name == "__init__":
+                continue
+            writers.add((fi.qual, s.attr, fi.loc(s.stmt)))
+    for (q, a, l) in sorted(writers):
+        ctx.violation(rule, "%s::outside-store:%s" % (q, a), l,
+                      "the evaluation cache attribute %s of a Function is written outside the cache's own methods" % a)
+    if not writers:
+        ctx.ok(rule, "package::no-outside-writer", "sparseSpACE/*",
+               "f_dict / old_f_dict / do_cache of Function objects are written only by %s" % sorted(allowed))
+
+
+
 def run(prog, ctx):
     base = prog.cls(BASE)
     call = prog.func(BASE + ".__call__")
@@ -122,170 +293,8 @@ def run(prog, ctx):
     check_arguments_not_modified(prog, ctx, base)
 
     # ---------------------------------------------------------------- D4
+    check_cache_discipline(prog, ctx, base, call, pname, "C12.D4")
     tm = Terms(call.node)
-    env = tm.env
-    key_ok_term = ("copy", "tuple", ("n", pname))
-    n_store = 0
-    def judge_zip(a, b):
-        """zip(<the points of this call>, <the values evaluated for them>)"""
-        okk = isinstance(a, ast.Name) and a.id == pname
-        okv = False
-        if isinstance(b, ast.Name):
-            okv = True
-            for bd in env.bindings.get(b.id, []):
-                v = bd.value
-                if bd.kind != "assign" or v is None:
-                    okv = False
-                    continue
-                has_eval = any(isinstance(x, ast.Call) and isinstance(x.func, ast.Attribute)
-                               and x.func.attr == "eval_vectorized"
-                               and any(isinstance(y, ast.Name) and y.id == pname for a2 in x.args for y in ast.walk(a2))
-                               for x in ast.walk(v))
-                selfref = any(isinstance(y, ast.Name) and y.id == b.id for y in ast.walk(v))
-                if not (has_eval or selfref):
-                    okv = False
-        return okk and okv
-    for s in R.self_stores(call, "f_dict"):
-        if s.kind == "elem":
-            sub = s.stmt.targets[0]
-            # the batch update written as a loop:  for point, value in zip(points, values): self.f_dict[point] = value
-            loops_ = [l for l in R.enclosing_loops(s.stmt) if isinstance(l, ast.For)]
-            if loops_ and isinstance(loops_[-1].iter, ast.Call) and isinstance(loops_[-1].iter.func, ast.Name) and loops_[-1].iter.func.id == "zip" \
-                    and len(loops_[-1].iter.args) == 2 and isinstance(loops_[-1].target, ast.Tuple) and len(loops_[-1].target.elts) == 2 \
-                    and all(isinstance(e, ast.Name) for e in loops_[-1].target.elts):
-                kv, vv = loops_[-1].target.elts
-                n_store += 1
-                ok = isinstance(sub.slice, ast.Name) and sub.slice.id == kv.id and isinstance(s.value, ast.Name) and s.value.id == vv.id \
-                    and judge_zip(*loops_[-1].iter.args)
-                ctx.check(ok, "C12.D4", R.key_of(call, "batch-update"), call.loc(s.stmt),
-                          "the batch update stores, for each point of this call, the value evaluated for it",
-                          "batch cache update `%s` (in `for %s in %s`) does not pair the points of this call with the values evaluated for them"
-                          % (src(s.stmt), src(loops_[-1].target), src(loops_[-1].iter)))
-                continue
-            n_store += 1
-            k = tm.term(sub.slice)
-            good_key = k == key_ok_term
-            # value: every non-None definition of the stored name is a lookup/evaluation for the same key
-            vname = s.value.id if isinstance(s.value, ast.Name) else None
-            good_val = vname is not None
-            defs = []
-            if vname:
-                # the stored name and the names it is copied from (x = y): all their definitions count
-                todo, seen_n, all_bs = [vname], set(), []
-                while todo:
-                    nm_ = todo.pop()
-                    if nm_ in seen_n or len(seen_n) > 4:
-                        continue
-                    seen_n.add(nm_)
-                    for b in env.bindings.get(nm_, []):
-                        if b.kind == "assign" and isinstance(b.value, ast.Name) and b.value.id not in (pname,) and b.value.id in env.bindings:
-                            todo.append(b.value.id)
-                        else:
-                            all_bs.append(b)
-                for b in all_bs:
-                    if b.kind != "assign":
-                        good_val = False
-                        continue
-                    v = b.value
-                    if isinstance(v, ast.Constant) and v.value is None:
-                        continue
-                    # `x = [x]` scalar wrap happens after the store: allowed if it does not dominate the store
-                    if isinstance(v, ast.List) and len(v.elts) == 1 and isinstance(v.elts[0], ast.Name) and v.elts[0].id == vname:
-                        wrapn = R.cfg_node(call, b.stmt)
-                        if wrapn.idx in cfg_of(call).reachable_after(wrapn) or \
-                                R.cfg_node(call, s.stmt).idx in cfg_of(call).reachable_after(wrapn):
-                            good_val = False
-                        continue
-                    if isinstance(v, ast.Call) and v.args:
-                        a0 = tm.term(v.args[0])
-                        fn = v.func
-                        fname = fn.attr if isinstance(fn, ast.Attribute) else None
-                        if fname in ("get", "eval") and a0 in (k, ("n", pname)):
-                            defs.append(src(v))
-                            continue
-                    good_val = False
-                    defs.append("!" + src(v))
-            ctx.check(good_key and good_val, "C12.D4", R.key_of(call, "store:f_dict[%s]" % show(k)), call.loc(s.stmt),
-                      "cache store keyed by the call's own point, value looked up / evaluated for that point",
-                      "cache store `%s`: key %s is not tuple(%s) of this call or the stored value is not the one "
-                      "looked up / evaluated for that key (defs: %s)" % (src(s.stmt), show(k), pname, defs),
-                      cache_key=show(k), value_defs=defs)
-        elif s.kind == "mutator" and s.call.func.attr == "update":
-            n_store += 1
-            arg = s.call.args[0] if s.call.args else None
-            ok = False
-            detail = ""
-            if isinstance(arg, ast.Call) and isinstance(arg.func, ast.Name) and arg.func.id == "zip" and len(arg.args) == 2:
-                a, b = arg.args
-                okk = isinstance(a, ast.Name) and a.id == pname
-                okv = False
-                if isinstance(b, ast.Name):
-                    okv = True
-                    for bd in env.bindings.get(b.id, []):
-                        v = bd.value
-                        if bd.kind != "assign" or v is None:
-                            okv = False
-                            continue
-                        has_eval = any(isinstance(x, ast.Call) and isinstance(x.func, ast.Attribute)
-                                       and x.func.attr == "eval_vectorized"
-                                       and any(isinstance(y, ast.Name) and y.id == pname for a2 in x.args for y in ast.walk(a2))
-                                       for x in ast.walk(v))
-                        selfref = any(isinstance(y, ast.Name) and y.id == b.id for y in ast.walk(v))
-                        if not (has_eval or selfref):
-                            okv = False
-                ok = okk and okv
-                detail = "zip(%s, %s)" % (src(a), src(b))
-            ctx.check(ok, "C12.D4", R.key_of(call, "batch-update"), call.loc(s.stmt),
-                      "batch cache update zips the evaluated points with their own rows (%s)" % detail,
-                      "batch cache update `%s` does not zip the points of this call with the values evaluated for them" % src(s.stmt))
-        else:
-            n_store += 1
-            ctx.violation("C12.D4", R.key_of(call, "store:%s" % s.kind), call.loc(s.stmt),
-                          "unrecognised write to the evaluation cache in __call__: %s" % src(s.stmt))
-    ctx.floor("C12.D4", n_store, 3, "cache stores in Function.__call__")
-    # reset / counter
-    reset = prog.func(BASE + ".reset_dictionary")
-    size = prog.func(BASE + ".get_f_dict_size")
-    ctx.touch(reset, size)
-    rs = [s for s in R.self_stores(reset, "f_dict") if s.kind == "plain"]
-    ok = bool(rs) and all(isinstance(s.value, ast.Dict) and not s.value.keys or
-                          (isinstance(s.value, ast.Call) and isinstance(s.value.func, ast.Name) and s.value.func.id == "dict"
-                           and not s.value.args and not s.value.keywords) for s in rs)
-    withv, bare, fall = R.return_paths(reset)
-    c_reset = cfg_of(reset)
-    on_all = bool(rs) and all(c_reset.post_dominates(R.cfg_node(reset, rs[-1].stmt), c_reset.entry) for _ in [0])
-    ctx.check(ok and on_all, "C12.D4", R.key_of(reset, "reset:f_dict"), reset.loc(),
-              "reset_dictionary re-assigns f_dict to an empty dict on every path",
-              "reset_dictionary does not plainly re-assign f_dict to an empty dict on every path")
-    rt = [p for p in R.return_paths(size)[0]]
-    tsz = terms_of(size)
-    ok = len(rt) >= 1 and all(tsz.term(p.ast.value) == ("call", ("n", "len"), (("a", ("n", "self"), "f_dict"),), ()) for p in rt)
-    ctx.check(ok, "C12.D4", R.key_of(size, "counter"), size.loc(),
-              "the evaluation counter is the size of the dictionary that reset_dictionary empties",
-              "get_f_dict_size no longer returns len(self.f_dict)")
-    # who else writes the cache state of a Function object
-    writers = set()
-    fsubs = {c.qual for c in prog.all_subclasses(base)}
-    allowed = {BASE + ".__init__", BASE + ".reset_dictionary", BASE + ".__call__", BASE + ".deactivate_caching"}
-    for fi in prog.functions.values():
-        for s in R.attribute_stores(fi.node):
-            if s.attr not in ("f_dict", "old_f_dict", "do_cache"):
-                continue
-            is_self = isinstance(s.base, ast.Name) and s.base.id == fi.self_name
-            if is_self and (fi.cls is None or fi.cls.qual not in fsubs):
-                continue        # an unrelated class with an attribute of the same name
-            if is_self and fi.qual in allowed:
-                continue
-            if is_self and s.attr == "do_cache" and fi.name == "__init__":
-                continue
-            writers.add((fi.qual, s.attr, fi.loc(s.stmt)))
-    for (q, a, l) in sorted(writers):
-        ctx.violation("C12.D4", "%s::outside-store:%s" % (q, a), l,
-                      "the evaluation cache attribute %s of a Function is written outside the cache's own methods" % a)
-    if not writers:
-        ctx.ok("C12.D4", "package::no-outside-writer", "sparseSpACE/*",
-               "f_dict / old_f_dict / do_cache of Function objects are written only by %s" % sorted(allowed))
-
     # ---------------------------------------------------------------- D5
     ol = ("call", ("a", ("n", "self"), "output_length"), (), ())
     lenp = ("call", ("n", "len"), (("n", pname),), ())
